@@ -5,11 +5,13 @@
 # Prints one line per check: <name> <Cxx> exit=<code> <seconds>s. Removes the worktree afterwards.
 set -u
 name="$1"; patch="$2"; shift 2
+BASEID="$name"
 W="/tmp/mt-$name"
 OUT="/tmp/mt-out/$name"
 rm -rf "$OUT"; mkdir -p "$OUT"
 git -C /repo worktree remove --force "$W" >/dev/null 2>&1
-git -C /repo worktree add -q --detach "$W" HEAD || exit 2
+base=HEAD; [ -f "/verif/seeded/$BASEID/base_commit" ] && base=$(cat "/verif/seeded/$BASEID/base_commit")
+git -C /repo worktree add -q --detach "$W" "$base" || exit 2
 cp /repo/Cargo.lock "$W/" 2>/dev/null
 if ! git -C "$W" apply "$patch"; then echo "$name PATCH-DOES-NOT-APPLY"; git -C /repo worktree remove --force "$W"; exit 2; fi
 for c in "$@"; do
